@@ -64,7 +64,8 @@ CLAIMED = {
         "direct-child test, union over nested namespaces, order-irrelevant, deeper predicates kept; instances_cap=k selects exactly what no cap "
         "selects on the document without the (k+1)-th.. instantiation triples of each class, including the early stop of the target-classes "
         "variant; a cap no class reaches changes nothing; figures are exact for any selection (R1). Tie: ordered correspondence with caps and "
-        "namespace sets varied. Search: option vs filtered document; caps 1..max+1; capped figures against the Lean Spec.",
+        "namespace sets varied; the filter function itself is regenerated from the Python AST (loop included) and proved equal to the model's "
+        "test for every property and namespace list. Search: option vs filtered document; caps 1..max+1; capped figures against the Lean Spec.",
    note="Trusts Lean's kernel, parser. Cap theorem proved for pairwise distinct target classes (hypothesis unused by the proof but kept).",
    technique="Lean 4 proof (fold invariant with pigeonhole for the early stop) + metamorphic search + Lean Spec oracle", design="5/C16"),
  "C03": dict(
@@ -124,7 +125,8 @@ CLAIMED = {
         "is an instance; the constraint example is the value of a triple with that property, in that direction, on an instance of the shape - "
         "for every document and configuration (induction over the longest-common-prefix fold with a relational invariant). The options are not "
         "inputs of the model's constraint pipeline. Tie: MinIri.stem / shapeExample / constraintExample vs the '[<stem>~] AND', sh:pattern and "
-        "'// rdfs:comment' annotations. Search: stems and examples of the implementation checked directly against the instance IRIs and triples; "
+        "'// rdfs:comment' annotations; longest_common_prefix and _determine_suitable_iri_pattern are regenerated from the Python AST and proved "
+        "equal to the model's lcp / suitable for every input. Search: stems and examples of the implementation checked directly against the instance IRIs and triples; "
         "output with and without the options compared constraint by constraint.",
    note="Trusts Lean's kernel, the ShExC / SHACL parsers of the harness. Finding F-C17-1 (an IRI-valued example is shortened and then quoted).",
    technique="Lean 4 proof (fold invariant, prefix order) + differential correspondence + direct oracle", design="5/C17"),
